@@ -127,7 +127,7 @@ def tmpl(name):
 
 # ----------------------------------------------------------------------------------------------- one case
 class Case:
-    def __init__(self, names, stop='eof', cut=None, mode='transaction', cache=0, roles=(0,), paused=None, sym_status=False, plugins=False, shards=None, custom=False):
+    def __init__(self, names, stop='eof', cut=None, mode='transaction', cache=0, roles=(0,), paused=None, sym_status=False, plugins=False, shards=None, custom=False, params=None):
         self.names = list(names)
         self.stop = stop              # 'eof' | 'X'
         self.cut = cut                # None or number of bytes of the LAST message delivered before EOF
@@ -137,6 +137,7 @@ class Case:
         self.paused = paused          # None | 'start' | ('after', k): PAUSE arrives while the client is idle before message k
         self.sym_status = sym_status
         self.shards = shards          # None or list of role tuples, one per shard (overrides `roles`)
+        self.params = params          # None or dict: the client's startup values of tracked parameters (the servers start with the defaults)
         self.custom = custom          # the script contains pooler commands (SET SHARD ...): routing reference is evaluated
         self.plugins = plugins        # query parser on; the plugin verdict for every parsed statement is symbolic (allow / deny / intercept)
 
@@ -147,6 +148,7 @@ class Case:
         s += '' if len(self.roles) == 1 else '/%dbackends' % len(self.roles)
         s += '/symstatus' if self.sym_status else ''
         s += '' if self.paused is None else '/paused:%s' % (self.paused,)
+        s += '' if not self.params else '/params:%s' % (sorted(self.params.items()),)
         s += '' if not self.shards else '/shards:%s' % (self.shards,)
         s += ('/plugins' if self.plugins is True else '/plugins:%s' % self.plugins) if self.plugins else ''
         return s
@@ -180,6 +182,10 @@ def run_case(chk, ob, ip, prog, case, props, extra_judge=None):
         pool_over = {}
         if case.mode == 'session':
             client_over['transaction_mode'] = BV(1, 0)
+        if case.params is not None:
+            vals = {k: v.decode('latin1') for k, v in HE.PARAM_DEFAULTS.items()}
+            vals.update(case.params)
+            client_over['server_parameters'] = mk_server_params(prog, vals)
         if case.cache:
             client_over['prepared_statements_enabled'] = BV(1, 1)
             for b in flat:
@@ -247,6 +253,8 @@ def run_case(chk, ob, ip, prog, case, props, extra_judge=None):
         V = HE.judge(data, eff, dec, cache_on=bool(case.cache), expect_incomplete=inc, denied=denied, allow_pooler_replies=bool(case.plugins or case.custom),
                      idle_rule=(case.mode == 'transaction' and not case.plugins and not case.custom and eff is complete))
         V += customV
+        if case.params is not None:
+            V += c12_reference(data, complete, dec, case.params)
         if case.cache and not case.plugins and 'C08' in props:
             V += c08_reference(data, complete, dec, case.cache)
         if extra_judge:
@@ -278,6 +286,8 @@ def run_case(chk, ob, ip, prog, case, props, extra_judge=None):
                 upto = sum(len(mm) for mm in msgs[:kk + 1])
                 cmd['client_hex'] = hexs[:2 * upto]
                 cmd['eof'] = False
+            if case.params is not None:
+                cmd['startup_params'] = dict(case.params)
             if case.shards:
                 cmd['shards'] = [['primary' if r == 0 else 'replica' for r in rs] for rs in case.shards]
                 cmd.pop('roles', None)
@@ -319,7 +329,8 @@ def run_case(chk, ob, ip, prog, case, props, extra_judge=None):
                        {'commands': [cmd], 'expect': ['h_violation', prop, key, (case.cache if prop == 'C08' else bool(case.cache)), inc, hexs, n_before,
                                                       [bytes(model_byte(m, b) for b in dm).hex() for dm in (denied_msgs if case.plugins else [])],
                                                       [bytes(model_byte(m, b) for mm in eff for b in mm).hex()] if case.plugins else None,
-                                                      [list(rs) for rs in (case.shards or [case.roles])] if case.custom else None]})
+                                                      [list(rs) for rs in (case.shards or [case.roles])] if case.custom else None,
+                                                      dict(case.params) if case.params is not None else None]})
         if len(ob.samples) < 2:
             ob.samples.append({'script': case.label(), 'outcome': str(data['outcome']), 'events': [str(e) for e in env.events][:8]})
     ip.explore(harness, max_paths=4000)
@@ -586,6 +597,43 @@ def effective_script(script, verdicts, cache_on=False):
     return eff, denied
 
 
+def c12_reference(data, script, dec, startup):
+    """Before any statement of the client runs on a server connection, that connection's tracked parameters (client_encoding,
+    DateStyle, TimeZone, standard_conforming_strings, application_name) equal what the client established: its startup values, then
+    its own SETs of tracked parameters (as the server reports them).  `params_before` is the reference backend's ground truth."""
+    V = []
+    want = dict(HE.PARAM_DEFAULTS)
+    for k, v in startup.items():
+        want[k] = v.encode('latin1')
+    # the client's own SETs, keyed by the forwarded message they are in
+    sets = {}
+    for i, m in enumerate(script):
+        cm = HE.conc(m)
+        if cm is None or cm[:1] != b'Q':
+            continue
+        upd = {}
+        for st in cm[5:-1].decode('latin1').split(';'):
+            mm = HE.SET_RX.match(st.strip())
+            if mm and mm.group(1).lower() in HE.PARAM_CANON:
+                upd[HE.PARAM_CANON[mm.group(1).lower()]] = (mm.group(2).replace("''", "'") if mm.group(2) is not None else mm.group(3)).encode('latin1')
+        if upd:
+            sets[bytes(cm)] = upd
+    for r in data['reqs']:
+        if r.get('origin') != 'client' or r.get('params_before') is None:
+            continue
+        got = r['params_before']
+        bad = {k: (got.get(k), want[k]) for k in want if got.get(k) != want[k]}
+        if bad:
+            k = sorted(bad)[0]
+            V.append(('C12', 'H/parameter-mismatch', 'the client\'s statement %s runs on backend %d whose %s is %r while the client established %r' %
+                      (HE.show(r['bytes'][:40]), r['backend'], k, bad[k][0], bad[k][1])))
+            break
+        cm = HE.conc(r['bytes'])
+        if cm is not None and bytes(cm) in sets:
+            want.update(sets[bytes(cm)])
+    return V
+
+
 def c08_reference(data, script, dec, cache_size=None):
     """Statement caching is invisible: every Execute of the client's program runs exactly the text the client most recently prepared
     under the name its Bind used, and a valid program never sees "prepared statement does not exist".  The reference backends put
@@ -674,7 +722,7 @@ def model_byte(m, b):
 
 
 @expectation('h_violation')
-def h_violation(prop, key, cache_on, incomplete, hexs, n_before=None, denied_hex=(), eff_hex=None, custom_shards=None):
+def h_violation(prop, key, cache_on, incomplete, hexs, n_before=None, denied_hex=(), eff_hex=None, custom_shards=None, params=None):
     """Native confirmation: the same reference model, evaluated on what the Rust reference backends and the two client
     sockets observed when the concrete script was played against the compiled pgcat."""
     def f(res):
@@ -692,6 +740,9 @@ def h_violation(prop, key, cache_on, incomplete, hexs, n_before=None, denied_hex
         V = HE.judge(data, complete, dec, cache_on=cache_on, expect_incomplete=incomplete,
                      denied=(lambda mm: HE.conc(mm)[:1] in (b'Q', b'P') and any(t and t in HE.conc(mm) for t in dsql)) if dmsgs else None,
                      allow_pooler_replies=bool(eff_hex or custom_shards)) + customV
+        if params is not None:
+            full, _r = HE.split_messages(HE.bvs(hexs), 'client script')
+            V += c12_reference(data, full, dec, params)
         if cache_on and prop == 'C08':
             full, _r = HE.split_messages(HE.bvs(hexs), 'client script')
             V += c08_reference(data, full, dec, cache_on if isinstance(cache_on, int) and not isinstance(cache_on, bool) else None)
